@@ -58,6 +58,21 @@ pub fn report(odd: bool, yz: u32, xz: u32) -> AirbornePosition {
     AirbornePosition::try_from(&b[..]).unwrap()
 }
 
+/// D * (k mod n + YZ / 2^17), minus 360 when >= 270 (southern hemisphere), E = k * 2^17 + YZ
+fn centre(d: f64, e: i64, n: i64) -> f64 {
+    let k = e.div_euclid(P17).rem_euclid(n);
+    let yz = e.rem_euclid(P17);
+    let v = d * (k as f64 + (yz as f64) / 131072.0);
+    if v >= 270.0 { v - 360.0 } else { v }
+}
+/// longitude cell centre: (360 / ni) * (m mod ni + XZ / 2^17), minus 360 when >= 180
+fn lon_centre(ni: i64, f: i64) -> f64 {
+    let m = f.div_euclid(P17).rem_euclid(ni);
+    let xz = f.rem_euclid(P17);
+    let v = (360.0 / ni as f64) * (m as f64 + (xz as f64) / 131072.0);
+    if v >= 180.0 { v - 360.0 } else { v }
+}
+
 fn close(a: f64, b: f64) -> bool {
     let d = a - b;
     d > -1e-9 && d < 1e-9
@@ -103,8 +118,11 @@ macro_rules! lat_exact {
                 let even = report(false, e0.rem_euclid(P17) as u32, 0);
                 let odd = report(true, e1.rem_euclid(P17) as u32, 0);
                 let r = if $odd_last { airborne_position(&even, &odd) } else { airborne_position(&odd, &even) };
-                let r0 = 6.0 * (e0 as f64) / 131072.0;
-                let r1 = (360.0 / 59.0) * (e1 as f64) / 131072.0;
+                // cell centres, written with the zone index and the transmitted count separated
+                // (zone index modulo 60 / 59 and the southern wrap exactly as DO-260B A.1.7.7 prescribes),
+                // so that a correct decoder produces the bit-identical double
+                let r0 = centre(6.0, e0, 60);
+                let r1 = centre(360.0 / 59.0, e1, 59);
                 vcover!(r.is_some());
                 match r {
                     None => vassert!(nl_ref(r0) != nl_ref(r1) || nl_borderline(r0) || nl_borderline(r1),
@@ -149,8 +167,7 @@ macro_rules! lon_exact {
                 vcover!(r.is_some());
                 vassert!(r.is_some(), "a consistent pair inside one NL band decodes");
                 if let Some(p) = r {
-                    let want = if $odd_last { (360.0 / N1 as f64) * (f1 as f64) / 131072.0 }
-                               else { (360.0 / N0 as f64) * (f0 as f64) / 131072.0 };
+                    let want = if $odd_last { lon_centre(N1, f1) } else { lon_centre(N0, f0) };
                     vassert!(p.longitude >= -180.0 && p.longitude < 180.0, "longitude in [-180, 180)");
                     vassert!(close_mod360(p.longitude, want), "longitude is the centre of the true cell");
                     vassert!(nl_ref(p.latitude) == NL, "latitude stays in its band");
